@@ -51,6 +51,15 @@ def leafAt : Ty → Val → List Nat → Option (Nat × Nat)
     | some (o, t', v') => (leafAt t' v' p).map fun (lo, w) => (o + lo, w)
     | none => none
 
+/-- the bits of the scalar leaf at the end of a path -/
+def getAt : Ty → Val → List Nat → Option Nat
+ | .scalar _, .bits b, [] => some b
+ | _, _, [] => none
+ | t, v, k :: p =>
+    match part t v k with
+    | some (_, t', v') => getAt t' v' p
+    | none => none
+
 def setNth : List Val → Nat → Val → List Val
  | [], _, _ => []
  | _ :: vs, 0, x => x :: vs
